@@ -42,12 +42,12 @@ func (d *stepDbg) VisitState(node *parser.ASTNode, vs parser.Scope, tid uint64) 
 }
 func (d *stepDbg) exhausted() bool { return atomic.LoadInt64(&d.visits) > d.budget }
 
-func (d *stepDbg) HandleInput(string) (interface{}, error)              { return nil, nil }
-func (d *stepDbg) StopThreads(time.Duration) bool                       { return false }
-func (d *stepDbg) BreakOnStart(bool)                                    {}
-func (d *stepDbg) BreakOnError(bool)                                    {}
+func (d *stepDbg) HandleInput(string) (interface{}, error)                 { return nil, nil }
+func (d *stepDbg) StopThreads(time.Duration) bool                          { return false }
+func (d *stepDbg) BreakOnStart(bool)                                       {}
+func (d *stepDbg) BreakOnError(bool)                                       {}
 func (d *stepDbg) SetLockingState(map[string]uint64, *datautil.RingBuffer) {}
-func (d *stepDbg) SetThreadPool(*pool.ThreadPool)                       {}
+func (d *stepDbg) SetThreadPool(*pool.ThreadPool)                          {}
 func (d *stepDbg) VisitStepInState(*parser.ASTNode, parser.Scope, uint64) util.TraceableRuntimeError {
 	return nil
 }
